@@ -369,13 +369,14 @@ fn convert_arg_to_comparable_value_and_suffix(
 
 /// This is a function that converts a specific string format into a timestamp.
 /// It allows converting a time string of
-/// "(week abbreviation) (date), (year) (time)" to a Unix timestamp.
+/// "(month abbreviation) (date), (year) (time)" to a Unix timestamp
+/// (a year only after a month and day; seconds 00 to 59).
 /// such as: "jan 01, 2025 00:00:01" -> 1735689601000
 /// When (time) is not provided, it will be automatically filled in as 00:00:00
 /// such as: "jan 01, 2025" = "jan 01, 2025 00:00:00" -> 1735689600000
 fn parse_date_str_to_timestamps(date_str: &str) -> Option<i64> {
     let regex_pattern =
-        r"^(?P<month_day>\w{3} [0-9]{2})?(?:, (?P<year>[0-9]{4}))?(?: (?P<time>[0-9]{2}:[0-9]{2}:[0-9]{2}))?$";
+        r"^(?:(?P<month_day>\w{3} [0-9]{2})(?:, (?P<year>[0-9]{4}))?)?(?: (?P<time>[0-9]{2}:[0-9]{2}:[0-5][0-9]))?$";
     let re = Regex::new(regex_pattern);
 
     if let Some(captures) = re.ok()?.captures(date_str) {
